@@ -38,6 +38,13 @@ pub struct C18Case {
     /// batch: per element (unit index, power scale, failing)
     pub batch: Vec<(usize, f64, bool)>,
     pub hash_noise: usize,
+    /// batch: elements whose power trace is cut to its first sample only (nothing to walk: the
+    /// serial walk still records the initial state), and whether the whole batch is walked a
+    /// second time after it has finished
+    #[serde(default)]
+    pub one_sample: Vec<usize>,
+    #[serde(default)]
+    pub walk_twice: bool,
     /// also run once in a fresh process (other address-space layout, other process-wide
     /// hash seeds, cold lazy statics) and compare the printed outputs character by character
     #[serde(default)]
@@ -223,7 +230,10 @@ fn build_batch(case: &C18Case) -> anyhow::Result<Vec<LocomotiveSimulation>> {
         let u = &case.units[*ui % case.units.len()];
         let loco = build_unit(u, Some(1))?;
         let mut tr = ptrace(&case.trace, unit_rating(u) * scale);
-        if *failing {
+        if case.one_sample.contains(&v.len()) {
+            tr = ptrace(&case.trace[..1], unit_rating(u) * scale);
+        }
+        if *failing && tr.pwr.len() > 1 {
             // an inadmissible demand in the middle of the trace
             let m = tr.pwr.len() / 2;
             tr.pwr[m] = altrios_core::uc::W * unit_rating(u) * 3.0;
@@ -242,15 +252,27 @@ fn check_batch(case: &C18Case, cx: &mut Ctx) {
         }
     };
     let img = |s: &LocomotiveSimulation| serde_json::to_value(s).unwrap_or(Value::Null);
+    let all_first_ok = base.iter().all(|s| s.clone().walk().is_ok());
     // solo reference per element
     let solo: Vec<(Value, bool)> = base
         .iter()
         .map(|s| {
             let mut c = s.clone();
             let ok = c.walk().is_ok();
+            (c, ok)
+        })
+        .map(|(mut c, ok)| {
+            // the batch is walked a second time only when its first walk succeeded, i.e. when
+            // no element fails: the solo reference does the same
+            if case.walk_twice && all_first_ok {
+                let ok2 = c.walk().is_ok();
+                return (img(&c), ok && ok2);
+            }
             (img(&c), ok)
         })
         .collect();
+    cx.label_if(case.walk_twice, "batch_walked_a_second_time");
+    cx.label_if(!case.one_sample.is_empty(), "batch_element_with_a_single_sample_trace");
     let untouched: Vec<Value> = base.iter().map(img).collect();
     let any_fail = solo.iter().any(|s| !s.1);
     cx.label_if(any_fail, "batch_with_failing_element");
@@ -299,7 +321,10 @@ fn check_batch(case: &C18Case, cx: &mut Ctx) {
     // serial
     {
         let mut v = LocomotiveSimulationVec(base.clone());
-        let r = v.walk(false);
+        let mut r = v.walk(false);
+        if case.walk_twice && r.is_ok() {
+            r = v.walk(false);
+        }
         check(&v, &r, "serial", cx);
         runs += 1;
     }
@@ -310,7 +335,10 @@ fn check_batch(case: &C18Case, cx: &mut Ctx) {
         };
         for rep in 0..3 {
             let mut v = LocomotiveSimulationVec(base.clone());
-            let r = pool.install(|| v.walk(true));
+            let mut r = pool.install(|| v.walk(true));
+            if case.walk_twice && r.is_ok() {
+                r = pool.install(|| v.walk(true));
+            }
             check(&v, &r, &format!("parallel p={p} rep={rep}"), cx);
             runs += 1;
         }
@@ -380,7 +408,9 @@ impl C18 {
                 batch.push((g.idx(units.len()), Gen::round(g.f64(0.3, 1.0), 2), Some(i) == fail_at || g.bool(0.03)));
             }
         }
-        C18Case { kind, units, pdct: g.int(0, 1) as u8, trace, train, corridor, speed, batch, hash_noise: g.usize(0, 50), other_process: kind != 8 && g.bool(0.12) }
+        let one_sample: Vec<usize> = if kind == 8 && g.bool(0.2) { vec![g.idx(batch.len().max(1))] } else { vec![] };
+        let walk_twice = kind == 8 && g.bool(0.15);
+        C18Case { kind, units, pdct: g.int(0, 1) as u8, trace, train, corridor, speed, batch, hash_noise: g.usize(0, 50), one_sample, walk_twice, other_process: kind != 8 && g.bool(0.12) }
     }
 
     fn check(case: &C18Case, cx: &mut Ctx) {
